@@ -511,6 +511,12 @@ func (env *SpecEnv) call(e *ECall) *Val {
 		return env.eval(e.Args[i])
 	}
 	switch e.Fn {
+	case "panicval":
+		// the value of the most recent panic on this path (after recover() it is the recovered value)
+		if env.st == nil || env.st.panicVal.S == "" {
+			return scalar(nilIface, types.NewInterfaceType(nil, nil))
+		}
+		return scalar(env.st.panicVal, types.NewInterfaceType(nil, nil))
 	case "entry":
 		// entry(e): value of e when the function under contract was entered
 		n := *env
